@@ -198,6 +198,17 @@ class Interp:
                 a.data[0] += 1
                 em.out(str(len(a.data) + a.data[0]))
                 return True
+            if a.t == "mis":
+                # constant int key into a captured map, inside the closure
+                if cname not in self.defined:
+                    self.defined.add(cname)
+                    em.code("%s = fn(r: str) -> int {\n\t%s[7] = r\n\t%s[7] += \"!\"\n\tprint %s[1]\n\treturn %s.len()\n}" % (cname, an, an, an, an))
+                r = op["v"] if isinstance(op.get("v"), str) else STRS[int(op.get("v") or 0) % len(STRS)]
+                em.code("print %s(%s)" % (cname, lit(r)))
+                a.data[7] = r + "!"
+                em.out(fmt_value(a.data.get(1)))
+                em.out(str(len(a.data)))
+                return True
             if a.t == "msi":
                 if cname not in self.defined:
                     self.defined.add(cname)
@@ -525,6 +536,30 @@ class Interp:
             em.code("%s[%s] = %s[%d]" % (an, lit(key), op["b"], i))
             a.data[key] = b.data[i]
             return True
+        if k == "mwrite_keyfrom":
+            # the key is itself read out of another container
+            b = self.vars.get(op.get("b"))
+            if b is None or not b.data or op.get("b") not in self.plain:
+                return False      # (element types of map/filter results trip a typing quirk of the compiler)
+            i = op["i"] % len(b.data)
+            if a.t == "mis" and b.t == "li" and vt_ok(op.get("v")):
+                em.code("%s[%s[%d]] = %s" % (an, op["b"], i, lit(op["v"])))
+                a.data[b.data[i]] = op["v"]
+                em.code("print %s.contains_key(%s)" % (an, lit(b.data[i])))
+                em.out("true")
+                return True
+            if a.t == "msi" and b.t == "ls":
+                kk = b.data[i]
+                if kk in a.data:
+                    em.code("%s[%s[%d]] += 1" % (an, op["b"], i))
+                    a.data[kk] += 1
+                else:
+                    em.code("%s[%s[%d]] = 1" % (an, op["b"], i))
+                    a.data[kk] = 1
+                em.code("print %s[%s]" % (an, lit(kk)))
+                em.out(str(a.data[kk]))
+                return True
+            return False
         if k == "mwrite_fn":
             if a.t != "msi" or not kt_ok(key) or not vt_ok(op.get("v")):
                 return False
@@ -667,7 +702,7 @@ def gen_op(rng, it):
         return op
     kind = rng.weighted([("mwrite", 6), ("mread", 4), ("mopassign", 3), ("replace", 3), ("mremove", 3), ("contains", 3), ("len", 2),
                          ("keys", 2), ("values", 2), ("pairs", 2), ("clear", 1), ("clone", 2), ("alias", 3), ("keys_len", 1),
-                         ("mwrite_fn", 1), ("cap_call", 2), ("mwrite_from", 1)])
+                         ("mwrite_fn", 1), ("cap_call", 2), ("mwrite_from", 1), ("mwrite_keyfrom", 2)])
     op = {"op": kind, "a": a}
     if o.t == "msl":
         kind = rng.weighted([("mwrite", 6), ("mread", 3), ("mget", 4), ("mremove", 2), ("contains", 2), ("len", 1), ("values", 2), ("keys", 1),
@@ -679,6 +714,12 @@ def gen_op(rng, it):
         if kind == "mget" and o.data:
             op["k"] = rng.choice(sorted(o.data.keys()))
         return op
+    if kind == "mwrite_keyfrom":
+        want = "li" if o.t == "mis" else ("ls" if o.t == "msi" else None)
+        cands = [x for x in lists if it.vars[x].t == want]
+        if not cands:
+            return {"op": "len", "a": a}
+        return {"op": kind, "a": a, "b": rng.choice(cands), "i": rng.below(8), "v": rng.choice(STRS) if o.t == "mis" else 1}
     if kind == "mwrite_from":
         cands = [x for x in lists if it.vars[x].t == "li"]
         if not cands or o.t != "msi":
